@@ -98,6 +98,7 @@ PROPS["C07"] = dict(
     require_tags={"quick": ["kernel_trivial", "kernel_proper"], "thorough": ["kernel_trivial", "kernel_proper", "kernel_all"]},
 )
 PROPS["C13"] = dict(
+    technique="runtime monitoring: reference-model oracle (explicit swap / bit semantics) over random, grid-enumerated and column-pair-enumerated cases in ASan/UBSan builds, parent-snapshot monitor for window operands",
     level="exploration",
     rule="case = (primitive, shape, indices (word-boundary biased), row ranges incl. empty, LAPACK permutation (identity/single/random/all-last, full or shorter)); "
          "oracle: explicit model of each primitive; relations left==right permutation matrix and X then X_trans restores; distinct = (build, primitive, parameter class, "
@@ -111,6 +112,7 @@ PROPS["C13"] = dict(
     ]),
 )
 PROPS["C17"] = dict(
+    technique="runtime monitoring: reference-model oracle and relational checks (antisymmetry, transitivity, consistency with equality) on observed return values in ASan/UBSan builds",
     level="exploration",
     rule="case = (observer, shape, content: pairs differing in exactly one bit at a position class first/middle/last word/last row, chains for cmp, single-bit and "
          "zero-tail matrices, pivot search starts incl. last word/last 64 columns); oracle: model predicates; distinct = (build, observer, content class, shape class); "
@@ -136,6 +138,7 @@ PROPS["C08"] = dict(
 )
 
 PROPS["C09"] = dict(
+    technique="runtime monitoring: snapshot monitor over the whole parent allocation (bits outside the view before/after), differential against standalone copies and re-randomised surroundings, ASan/UBSan builds",
     level="exploration",
     rule="case = (operation, operand values, per-operand placement: owned / window at even word / window at odd word, row offset 0 or not, view width mod 64, parent "
          "ending with the view, inside its last word, or wider; random or zero surround); oracles: model result, bit-exact snapshot of every parent allocation "
@@ -152,6 +155,7 @@ PROPS["C09"] = dict(
 )
 
 PROPS["C10"] = dict(
+    technique="runtime monitoring: history / heap-poisoning differential (same call under 7 allocator and cache environments, interposed allocator), raw padding-word monitor, MemorySanitizer and valgrind memcheck attribution per case",
     level="exploration",
     rule="case = (operation, operand values) executed under 7 environments: fresh (empty block cache, no poison) | after 1-3 executions of the same op (dirty cached "
          "blocks of exactly its temporaries' sizes) | fresh blocks poisoned 0xFF | 0xA5 + cached blocks overwritten | PRNG bytes + cached blocks overwritten | after "
@@ -167,6 +171,8 @@ PROPS["C10"] = dict(
         S("small-asan", "pure", [], (1200, 160), (20000, 400)),
         # operands that are windows with non-zero excess bits: owned results must still come out with zero padding and independent of the history
         S("small-plain", "pure", ["--policy", "win"], (1500, 200), (24000, 600)),
+        # the same histories under MemorySanitizer (origins tracked): a result, branch or address that depends on uninitialised memory is reported at its use
+        S("small-msan", "pure", [], (800, 160), (12000, 400)),
         S("host-nosse-plain", "pure", [], (600, 260), (10000, 900)),
         S("small-ts-plain-vg", "func", ["--balance", "0"], (160, 90), (2400, 260), valgrind=True, timeout=300),
     ],
@@ -174,6 +180,7 @@ PROPS["C10"] = dict(
 
 ALLFAM = "mul,ech,ple,trsm,inv,solve,kernel,move,rowcol,obs"
 PROPS["C11"] = dict(
+    technique="runtime monitoring: AddressSanitizer + UndefinedBehaviorSanitizer (gcc and clang) and MemorySanitizer builds with fatal reports attributed per case, per-case allocation / header-pool balance, abort-hook monitor for ill-dimensioned calls in forked children",
     level="exploration",
     rule="monitor A: the workloads of C01-C09/C13/C17 (every op of the table, operands owned or windows incl. odd word offsets = row starts 8 mod 16) in ASan+UBSan "
          "builds with fatal reports, each case attributed; monitor B: allocation balance per case (library blocks live before == after everything was freed, block "
@@ -188,6 +195,9 @@ PROPS["C11"] = dict(
         S("mid-debug-asan", "func", ["--fam", ALLFAM, "--policy", "win"], (2000, 300), (40000, 900)),
         S("odd-asan", "func", ["--fam", ALLFAM, "--policy", "win"], (2000, 450), (40000, 1000)),
         S("host-clang-asan", "func", ["--fam", ALLFAM, "--policy", "win"], (3000, 300), (60000, 1200)),
+        # MemorySanitizer: reads of uninitialised scalars / heap words that influence a branch, an address or a result
+        S("small-msan", "func", ["--fam", ALLFAM], (4000, 300), (60000, 800)),
+        S("small-msan", "func", ["--fam", ALLFAM, "--policy", "win"], (2000, 300), (30000, 800)),
         S("small-gomp-asan", "func", ["--fam", "mul,ech", "--policy", "win"], (500, 300), (10000, 700), env={"OMP_NUM_THREADS": "4"}),
         S("small-asan", "illdim", [], (840, 150), (8400, 300)),
         S("small-gomp-asan", "illdim", [], (460, 150), (4600, 300), env={"OMP_NUM_THREADS": "2"}),
@@ -198,6 +208,7 @@ C12_FAM = "mul,ech,ple,trsm,inv,solve,kernel"
 def _c12(cfg, q, t, **kw):
     return S(cfg, "digest", ["--fam", C12_FAM, "--reps", "2"], q, t, **kw)
 PROPS["C12"] = dict(
+    technique="runtime monitoring: the same seeded cases executed in 7-10 differently configured / compiled builds, offline comparison of the recorded canonical-output digests plus per-build reference-model oracle",
     level="exploration",
     cross_digest=True,
     rule="case = one seeded operand set (generators aim alternately at the regime boundaries of the small and of the host cache triple, identically in every build); "
@@ -224,6 +235,7 @@ PROPS["C12"] = dict(
 )
 
 PROPS["C19"] = dict(
+    technique="runtime monitoring: complete enumeration of the finite domains against the executing library (code book, tables, parity, masks, bit kernels) with bit-level oracles, ASan/UBSan build",
     level="exploration",
     exhaustive=True,
     rule="finite domains enumerated completely: code book for k=1..16 (all 2^k entries: permutation, one-bit steps incl. wrap-around, increment == changed bit); "
@@ -239,6 +251,7 @@ PROPS["C19"] = dict(
 )
 
 PROPS["C14"] = dict(
+    technique="runtime monitoring: shadow-heap monitor over scripted and random allocation histories (interposed allocator, canaries, zero check, disjointness, header-pool hook), ASan, balance after m4ri_fini",
     level="exploration",
     rule="case = one history over {init(r,c), init_window(parent,...) incl. windows of windows, free(x)} checked against a shadow model: scripted histories "
          "(17+ distinct freed sizes -> eviction; equal sizes -> exact-size reuse of a dirty block; sizes just below/at/above the caching threshold; >64, >1024 "
@@ -259,6 +272,7 @@ PROPS["C14"] = dict(
 )
 
 PROPS["C20"] = dict(
+    technique="runtime monitoring with fault injection: every allocation request of each scenario fails once (interposed allocator, one forked child per request), oracle on the child's termination signal, stderr and sanitizer output",
     level="fault_enumeration",
     rule="scenario = one op of the table (every multiplication route, elimination, factorisation, TRSM, inversion, solve, kernel, data movement, permutation "
          "application, observers) or one of: mzd_init, 140 x mzd_init_window, init/free churn, mzp init/copy/window, PNG write, PNG read, JCF read, from_str, "
@@ -276,6 +290,7 @@ PROPS["C20"] = dict(
 )
 
 PROPS["C18"] = dict(
+    technique="runtime monitoring: round-trip oracle with an independent PNG decoder, forged PNG/JCF files read in forked children under ASan/UBSan and valgrind memcheck with a process-fate oracle",
     level="fault_enumeration",
     rule="round trip: matrices of every ncols residue mod 64 (hence mod 8) x heights x patterns x compression levels 0-9 x empty/short/long comments, owned or window "
          "sources: file written by mzd_to_png is decoded by the harness's own zlib-based PNG decoder (chunk CRCs, IHDR, filters, bit order, comment chunk) and by "
